@@ -185,11 +185,19 @@ def run(tier):
     for body, want in execs[:2]:
         for how in ("full", "closed"):
             add(body, True, [], "-r", "FILE", {"want": want, "stdout_to": how})
+    # TWO outputs requested at once (a printed one and a file): both must be right, and if either cannot be produced the status is non-zero
+    for prog, valid in progs[:8]:
+        for ok in ("-pP", "-pO", "-bP", "-pbO"):
+            for src in ("FILE", "stdin"):
+                add(prog, valid, rnd.choice(flagsets), ok, src, {"c": 8})
+            for how in ("full", "closed"):
+                add(prog, valid, [], ok, rnd.choice(["FILE", "stdin"]), {"c": 8, "stdout_to": how})
+        add(prog, valid, [], "-pPbad", "FILE", {"c": 8, "target": "/dev/full"})
     # ---- reference via the driver (library under the corresponding option calls)
     refcases, refkey = [], {}
     for j in jobs:
         opts = [o for f in j["flags"] for o in MODEFLAGS[f]]
-        kind = "fit" if j["out"] in ("-c", "-pc") else ("cnt" if j["out"] in ("-b", "-pb") else "plain")
+        kind = "fit" if j["out"] in ("-c", "-pc") else ("cnt" if j["out"] in ("-b", "-pb", "-bP", "-pbO") else "plain")
         key = (tuple(j["prog"]), tuple(opts), kind, j.get("c") if kind != "plain" else None)
         if key in refkey:
             j["ref"] = key
@@ -271,6 +279,14 @@ def run(tier):
             args += ["-b", str(j["c"])]
         elif ok == "-pb":
             args += ["-p", "-b", str(j["c"])]
+        elif ok in ("-pP", "-bP"):
+            outfile = os.path.join(d, "out.raw")
+            args += (["-p"] if ok == "-pP" else ["-b", str(j["c"])]) + ["-P", outfile]
+        elif ok in ("-pO", "-pbO"):
+            outfile = os.path.join(d, "obj.bin")
+            args += (["-p"] if ok == "-pO" else ["-p", "-b", str(j["c"])]) + ["-o", os.path.join(d, "obj")]
+        elif ok == "-pPbad":
+            args += ["-p", "-P", j["target"]]
         elif ok.startswith(("-r", "--return", "--rand")):
             args += [ok]
         elif ok == "-usage":
@@ -353,7 +369,7 @@ def run(tier):
             v.violation(case, "reference-crashed", None)
             continue
         lib_ok = R["rc"] == 0
-        should_succeed = lib_ok and j["out"] not in ("-Pbad", "-usage") and not j.get("stdout_to")
+        should_succeed = lib_ok and j["out"] not in ("-Pbad", "-usage", "-pPbad") and not j.get("stdout_to")
         stats["exit0" if o["rc"] == 0 else "exit_nonzero"] += 1
         if (o["rc"] == 0) != should_succeed:
             v.violation(case, "exit-status:%d-but-%s" % (o["rc"], "should-succeed" if should_succeed else "should-fail"), err[-400:])
@@ -368,6 +384,12 @@ def run(tier):
         if k in ("-P", "-o", "-c"):
             if o["file"] != code:
                 bad = ("binary-output-differs", "file %s vs library %s" % (None if o["file"] is None else o["file"].hex()[:80], R["code"][:80]))
+        elif k in ("-pP", "-pO", "-bP", "-pbO"):
+            wantp = fmt_p(R["insn"]) if k in ("-pP", "-pO") else ((R["count"] + "\n") if k == "-bP" else fmt_p(R["insn"]) + "%s instructions break a chunk boundary of %d bytes\n" % (R["count"], j["c"]))
+            if o["file"] != code:
+                bad = ("binary-output-differs", "file %s vs library %s" % (None if o["file"] is None else o["file"].hex()[:80], R["code"][:80]))
+            elif out != wantp:
+                bad = ("printed-output-differs", "got %r want %r" % (out[:200], wantp[:200]))
         elif k == "-Pstdout":
             if not o.get("dev_ok", True):
                 v.inconclusive.append({"why": "/dev/stdout was not the link to fd 1 during this invocation", "case": case["key"]})
@@ -521,7 +543,7 @@ def run(tier):
                 stats["valgrind_runs"] += 1
                 v.distinct(("vg", how, LEN))
     v.cov["rule"] = ("asmline (tools/asmline.c built with ASan+UBSan from the working tree) vs the library driven through the corresponding documented option calls: seeded programs (valid, with option-sensitive probe lines, "
-                     "with one invalid line, executable ones returning values up to 2^64-1, empty / blank / comment-only programs, programs of 100-3000 (thorough: 6000) lines) x every mode flag and non-conflicting flag pairs x outputs {-p, -P file, -P /dev/stdout, -o, -c N (binary), -p -c N, -b N, -p -b N, -r, -r=0/2/3/100, --return[=5], unwritable -P, printed outputs to a full / closed standard output; 21 spellings of the number given to -c / -b (huge, fractional, trailing characters, hex, signs, blanks); chunk sizes 4..10^6; options before or after FILE} x {FILE, stdin, stdin delivered in pieces of 1 / 7 / 40 / 4096 bytes}. "
+                     "with one invalid line, executable ones returning values up to 2^64-1, empty / blank / comment-only programs, programs of 100-3000 (thorough: 6000) lines) x every mode flag and non-conflicting flag pairs x outputs {-p, -P file, -P /dev/stdout, -o, -c N (binary), -p -c N, -b N, -p -b N, a printed and a file output together (-p -P, -p -o, -b -P, -p -b -o), -r, -r=0/2/3/100, --return[=5], unwritable -P, printed outputs to a full / closed standard output; 21 spellings of the number given to -c / -b (huge, fractional, trailing characters, hex, signs, blanks); chunk sizes 4..10^6; options before or after FILE} x {FILE, stdin, stdin delivered in pieces of 1 / 7 / 40 / 4096 bytes}. "
                      "-r / -r=LEN / --return=LEN / --rand additionally under valgrind memcheck with programs that touch the last element of all six arrays. Binary outputs must equal the library bytes, -p the hex rows per instruction (chunk rows with -c), -b the library count, -r the value the code returns; exit status 0 iff assembly and output succeeded")
     v.cov["exhaustive"] = False
     v.cov.update(stats)
